@@ -488,6 +488,13 @@ FORCED = dict(
 )
 
 
+DUPLICATE_GROUPS = {"tA": ["eq1", "eq1"], "tB": ["eq2", "eq3", "eq2"]}
+
+
+def has_duplicate_groups(cfg):
+    return any(len(set(v)) != len(v) for v in (cfg.get("site_types") or {}).values())
+
+
 def close(file_val, scaled_sum):
     """file value (5 decimals) vs exact 86.4 * sum(rate), rates given x1024"""
     exact = Fraction(864, 10) * Fraction(scaled_sum, 1024)
@@ -594,7 +601,11 @@ def run_whole_configs(ctx, n):
     and a non-repairable one) run by the real simulator in parallel"""
     from harness import wholerun as W
 
-    cfgs = [W.make_config(ctx.rng, **FORCED)] + [W.make_config(ctx.rng) for _ in range(max(0, n - 1))]
+    # the forced configuration also lists an equipment group TWICE in each site type (`eq1;eq1;`): two same-named
+    # groups below one site — the nested dict of generated emissions is keyed by names, both groups' sources are
+    # handed one common queue, and every emission must still be activated, counted and recorded exactly once
+    cfgs = [W.make_config(ctx.rng, **dict(FORCED, site_types=DUPLICATE_GROUPS))] + \
+           [W.make_config(ctx.rng) for _ in range(max(0, n - 1))]
     # boundary periods put in on purpose (first day with pre-existing emissions and last day included): a period
     # of more than a year that starts on Dec 30, straddles New Year, contains Feb 29 and ends on day-of-year 366;
     # a 2-day period Feb 28 -> Feb 29; a 1-day period on day-of-year 366.  (Periods whose end (month, day) lies
@@ -737,6 +748,19 @@ def judge_program_run(ctx, res, recs_all, prog, sim, method_ids, delays, record=
         ctx.count("wholerun_program_with_event_on_last_day")
     if not conform:
         ctx.count("wholerun_program_runs_of_crashed_configs_judged_on_files")
+        return raised
+    if has_duplicate_groups(res.cfg):
+        ctx.count("wholerun_program_runs_with_duplicate_equipment_groups")
+        # each record must be one emission of the scenario, once: no (site, group, component, repairable, id) twice
+        keys = [r["key"] for r in recs]
+        if len(set(keys)) != len(keys):
+            ctx.violate("C11:record-listed-twice", "an emission is written to the records more than once", inp)
+        # the logged tagging calls carry names only: with two same-named groups a call cannot be attributed to one of
+        # the two components, so the per-record model conformance is not applicable (the file oracle above is)
+        ctx.count("conformance_skipped:duplicate-equipment-group-names")
+        tot = lambda k: sum(int(r[TS[k]]) for r in ts)
+        ctx.nontrivial.add(("wr-dup", prog, len(recs), tot("new"), tot("rep"), tot("nat")))
+        ctx.count("wholerun_program_runs")
         return raised
     # ---- conformance with the model ------------------------------------------------------------
     lines = ["world %d" % N]
